@@ -81,7 +81,7 @@ theorem C12_safe_groups (r : Resources) (hb : Aligned r) :
 check the alignment of *offsets* only.  A zeroed 16-byte section at an odd address is dereferenced
 as `&IMAGE_RESOURCE_DIRECTORY` — undefined behaviour (not reachable through `Pe::resources`). -/
 theorem C12_unaligned_section_is_ub_partial :
-    (root ⟨Array.replicate 16 0, 0, 1⟩).isUb = true ∧ Safe (root ⟨Array.replicate 16 0, 0, 4⟩) := by
+    (root ⟨Array.replicate 16 0, 0, 1⟩).isUb = true ∧ root ⟨Array.replicate 16 0, 0, 4⟩ = .ok ⟨0, 0, 0⟩ := by
   decide
 
 /-- C01: every reference handed back — directory headers, entry records, name words, data entry
